@@ -86,6 +86,8 @@ func facts(f *hc.Facts) {
 	f.Const("typeFromServer", "proto", "MessageFromServer")
 	localConst(f, "minResolutionNanos", "proto", "MessageIDGen.New", "minResolutionNanos")
 	localConst(f, "nanoPerSec", "proto", "newMessageID", "nano")
+	// the whole of proto.newMessageID, translated from the source (Props: newMessageID_translated_eq_model)
+	f.TranslateFuncs("proto", "newMessageIDT", "newMessageID")
 
 	// the shift in `(intPart << 32) | fracPart` and the masking statement
 	if fd := f.FuncDecl("proto", "newMessageID"); fd != nil {
